@@ -431,7 +431,8 @@ func TestC10OracleSelfCheck(t *testing.T) {
 	kit.Case("oracle-self-check", true, "self-check")
 }
 
-// TestC10Fixed: a few deterministic inputs through all four functions.
+// TestC10Fixed: a few deterministic inputs through the _version_2 functions
+// with every version byte 0..255 (exhaustive over the version).
 func TestC10Fixed(t *testing.T) {
 	defer kit.Flush()
 	long := bytes.Repeat([]byte{0x5a}, 40)
@@ -452,7 +453,7 @@ func TestC10Fixed(t *testing.T) {
 		}
 		data := encList(c.strs, c.per)
 		model := specModel(c.strs, c.per)
-		for version := uint32(0); version < 4; version++ {
+		for version := uint32(0); version < 256; version++ { // every version byte
 			g, err := newGuest(nil)
 			if err != nil {
 				t.Fatal(err)
